@@ -10,6 +10,7 @@ import Ctrmml.Spec.Timeline
 import Ctrmml.Proofs.CodecBreak
 import Ctrmml.Proofs.CodecTrack
 import Ctrmml.Proofs.CodecCall
+import Ctrmml.Proofs.SongChunk
 namespace Ctrmml.C02
 open Ctrmml Ctrmml.Mds Ctrmml.Seq Tables
 
@@ -350,5 +351,54 @@ def exTrackB : List Node := [.loopB [.ev ⟨0xa6, 24⟩] [.ev ⟨mds_REST, 24⟩
 example : linL exTrackA = true ∧ linL exTrackB = true ∧ brkOkL false exTrackB = true ∧ noCallL exTrackB = true := by decide
 example : (convertTrack 0 0 (flatL exTrackA ++ [⟨mds_SEGNO, 0⟩] ++ flatL exTrackB ++ [⟨mds_JUMP, 0⟩])).toOption =
     some [0xa6, 0x17, 0xa6, 0x17, 0xfa, 0xa6, 0x17, 0xfc, 0x03, 0x17, 0xfb, 2, 0xf5, 0xff, 0xf5] := by decide +kernel
+
+/-! ## Whole songs of the plain fragment (third layer)
+
+`SongTop.PlainSong` = the fragment: track ids ascending, no explicit `END` event, every event of
+every track in `WFold.SimpleEv` (no platform command, no drum mode, no macro track = pan envelope
+on, no pitch envelope on, notes inside the MDSDRV range) with the front end's timing
+(`SongSem.Timed`: 16-bit on/off times, only notes/ties have an on time, only notes/ties/rests an off
+time, a sounding note has at least one key-on tick) and loop counts 0..255, and called tracks
+without loop point (`SongTop.CalleeNoSeg`).  The converter is `MdsFile.construct` (the constructor
+model of C09, with the index checks; `Mds.convertSong` of the first layer stops at macro tracks and
+has no index check — for songs of the fragment both assemble the same chunk, which is not proved
+here but compared on every run by the correspondence check).  Extra hypotheses besides the
+fragment: the chunk is shorter than 64 KiB (`Seq.step` computes the loop-back target modulo 2^16),
+at most one loop point per channel track (`SongSplit.segCount`), `PlatformClean` (no platform `cmd`
+injects an index-bearing opcode; vacuous without platform commands). -/
+
+theorem inDomain_segno {song : Song} {root : List Event} (h : Timeline.inDomain song root = true) :
+    Timeline.segnoAtDepth0 0 root = true := by
+  unfold Timeline.inDomain at h
+  simp only [Bool.and_eq_true] at h
+  exact h.1.1
+
+/-- **C02 for whole songs of the plain fragment.**  For every channel track in `Timeline.inDomain`
+whose expected tick string is defined: the track table of the assembled chunk lists the channel,
+and the sequence interpreter, started on the listed position with the loop-back followed once,
+plays a tick string `T` that is, after the masking of index operands (`Timeline.maskTk`), exactly
+`Timeline.expected` — for every tick limit that is not smaller than `T` and every sufficiently
+large fuel.  (Channel tracks, counted loops with any number of breaks, subroutine calls to any
+depth through the pointer table, the loop point and what is replayed after the loop-back jump.) -/
+theorem C02_song_roundtrip_partial (song : Song) (d : DataInfo) (vol : Option String) (pf : Timeline.Platform)
+    (b : MdsFile.Built) (hpc : PlatformClean d) (hp : SongTop.PlainSong song)
+    (hb : MdsFile.construct song d vol = .ok b) (hlen : b.seq.length < 65536) :
+    ∀ id root t, (id, root) ∈ song.tracks → id < 16 → Timeline.inDomain song root = true →
+      SongSplit.segCount root ≤ 1 → Timeline.expected song pf root = .ok t →
+      ∃ base ts start, tracksOf b.seq = some (base, ts) ∧ ts.lookup id = some start ∧
+        ∃ T, T.map Timeline.maskTk = t ∧
+          ∀ maxTicks, T.length ≤ maxTicks → ∃ n, ∀ fuel, fuel > n →
+            run b.seq base 1 maxTicks fuel { pc := start } = (T, .finished) := by
+  intro id root t hmem hid hdom hcnt hexp
+  obtain ⟨ts, stream, pre, htr, hlk, _, hres⟩ :=
+    SongTop.song_plays hpc hp hb hlen pf hmem hid (inDomain_segno hdom) hcnt hexp 1
+  obtain ⟨X, Y, TA, TB, loops, s', hreach, hfin, hout, hX, hY, ht, _, _, _⟩ := hres.plays
+  refine ⟨_, ts, pre.length, htr, hlk,
+    (if loops then TA ++ repeatL 1 (TB ++ [Tk.loopMark]) ++ TB else TA ++ TB), ?_, ?_⟩
+  · rw [ht, ← hX, ← hY]
+    cases loops <;> simp [SongSem.mk, repeatL, Timeline.maskTk]
+  · intro maxTicks hmax
+    obtain ⟨n, hn⟩ := run_of_reach (maxTicks := maxTicks) hreach hfin (by rw [hout]; simpa using hmax)
+    exact ⟨n, fun fuel hf => by rw [hn fuel hf, hout]; simp⟩
 
 end Ctrmml.C02
